@@ -299,4 +299,86 @@ def lookupName (names : List (List Nat)) (q : List Nat) : Option Nat :=
   let hs := names.map asciiHash
   if hs.idxOf (asciiHash q) < hs.length then some (hs.idxOf (asciiHash q)) else none
 
+/-! ## Per-chromosome views of a genome-wide array (`GenomicArrayGlobal`) -/
+
+/-- `track[locations]` (`extract_locations`): the value at `from_local_coordinates(c, p)` -/
+def extractAt (sizes : List Nat) (dense : List Nat) (c p : Nat) : Option Nat :=
+  match fromLocal sizes c p with
+  | some g => dense[g]?
+  | none => none
+
+/-- `track[mask]` (`_index_boolean`): the values at the positions where the genome-wide mask is set -/
+def boolIndex (dense mask : List Nat) : List Nat :=
+  ((dense.zip mask).filter (fun x => x.2 != 0)).map (·.1)
+
+/-! ## Binned counts (`BinnedGenome`) -/
+
+/-- `(chrom_sizes + bin_size - 1) // bin_size` -/
+def nBins (b : Nat) (sizes : List Nat) : List Nat := sizes.map (fun s => (s + b - 1) / b)
+
+/-- `self._bin_offsets[chrom] + position // bin_size` -/
+def binIndex (b : Nat) (sizes : List Nat) (c p : Nat) : Nat := offset (nBins b sizes) c + p / b
+
+/-- `np.bincount(bin_nr, minlength=n_bins_total)`, then `count_dict`: one slice per chromosome -/
+def binnedCounts (b : Nat) (sizes : List Nat) (pts : List (Nat × Nat)) : List (List Nat) :=
+  toDict (nBins b sizes)
+    ((List.range (total (nBins b sizes))).map (fun g => (pts.filter (fun x => binIndex b sizes x.1 x.2 == g)).length))
+
+/-- specification: for every chromosome, per bin, the number of that chromosome's own locations in the bin -/
+def specBinned (b : Nat) (sizes : List Nat) (pts : List (Nat × Nat)) : List (List Nat) :=
+  (List.range sizes.length).map (fun c =>
+    (List.range ((size sizes c + b - 1) / b)).map (fun k => (pts.filter (fun x => x.1 == c && x.2 / b == k)).length))
+
+/-! ## Locations → intervals (`map_locations`, `find_indices`) -/
+
+/-- `np.searchsorted(a, v, side="left")` / `side="right"` on a sorted array: the number of elements `< v` / `≤ v` -/
+def countLt {β} (l : List (Nat × β)) (v : Nat) : Nat := (l.filter (fun x => x.1 < v)).length
+def countLe {β} (l : List (Nat × β)) (v : Nat) : Nat := (l.filter (fun x => x.1 ≤ v)).length
+
+/-- the locations (global position, local position), sorted by global position, that `find_indices` assigns to
+the global interval `[gs, ge)`; `right = true` is the rule shipped before the repair (`side="right"` for the stop) -/
+def locSlice (right : Bool) (gl : List (Nat × Nat)) (gs ge : Nat) : List (Nat × Nat) :=
+  (gl.drop (countLt gl gs)).take ((if right then countLe gl ge else countLt gl ge) - countLt gl gs)
+
+/-- `GenomicIntervalsFull.map_locations`: (interval index, location − interval start) -/
+def mapLocs (right : Bool) (sizes : List Nat) (ivs : List Iv) (pts : List (Nat × Nat)) : Option (List (Nat × Int)) :=
+  match omap (fun (x : Nat × Nat) => (fromLocal sizes x.1 x.2).map (fun g => (g, x.2))) pts, omap (toGlobal sizes) ivs with
+  | some gl, some gis =>
+    some ((List.range ivs.length).flatMap (fun i =>
+      (locSlice right gl (gis.getD i (0, 0)).1 (gis.getD i (0, 0)).2).map
+        (fun x => (i, (x.2 : Int) - ((ivs.getD i default).s : Int)))))
+  | _, _ => none
+
+/-- specification: every (interval, location) pair on the same chromosome with `start ≤ position < stop` -/
+def specMapLocs (ivs : List Iv) (pts : List (Nat × Nat)) : List (Nat × Int) :=
+  (List.range ivs.length).flatMap (fun i =>
+    (pts.filter (fun x => x.1 == (ivs.getD i default).c && (ivs.getD i default).s ≤ x.2 && x.2 < (ivs.getD i default).e)).map
+      (fun x => (i, (x.2 : Int) - ((ivs.getD i default).s : Int))))
+
+/-! ## Genome-wide similarity (`Geometry.jaccard`) -/
+
+def interCount (a b : List Nat) : Nat := ((a.zip b).filter (fun x => x.1 != 0 && x.2 != 0)).length
+def unionCount (a b : List Nat) : Nat := ((a.zip b).filter (fun x => x.1 != 0 || x.2 != 0)).length
+
+/-! ## Sorted locations, intervals from a mask -/
+
+def locLe (a b : Nat × Nat) : Bool := a.1 < b.1 || (a.1 == b.1 && a.2 ≤ b.2)
+
+/-- `GenomicLocationGlobal.sorted()`: lexsort on (chromosome index, position) -/
+def sortLocs (pts : List (Nat × Nat)) : List (Nat × Nat) := pts.mergeSort locLe
+
+/-- the maximal runs of non-zero entries of a dense array, as half-open intervals
+(`GenomicArray.get_data()` of a boolean track: `Interval(starts, ends)[values]`) -/
+def onesRunsFrom (pos : Nat) (cur : Option Nat) : List Nat → List (Nat × Nat)
+  | [] => match cur with
+    | some s => [(s, pos)]
+    | none => []
+  | v :: r =>
+    if v != 0 then onesRunsFrom (pos + 1) (some (cur.getD pos)) r
+    else (match cur with
+      | some s => [(s, pos)]
+      | none => []) ++ onesRunsFrom (pos + 1) none r
+
+def onesRuns (d : List Nat) : List (Nat × Nat) := onesRunsFrom 0 none d
+
 end C10
